@@ -1,5 +1,5 @@
 # replay of a bounded stand-in violation (C09/C10): re-run native/c09_engine.py
 import sys
-print('C10: im(q) of a measured parameter with outcome (-0.25-1.5j) evaluates to 0j, the function of the outcome is (-1.5+0j)')
+print("fock [measure q2 and q1, Del q0, feed q1's outcome to q2; successor deletes the measured mode afterwards]: raised RuntimeError: Register mismatch: program 1, 'None'. (after [])")
 print('REPLAY-VIOLATION')
 sys.exit(1)
